@@ -447,3 +447,40 @@ Example C07_history_inhabited :
   exists c h, cfg_ok c /\ Forall step_ok h /\ length (run c h) = 4%nat.
 Proof. exact history_inhabited. Qed.
 Print Assumptions C07_history_inhabited.
+
+(* ================================================================ *)
+(* MAC arguments that are not the Ethernet destination.
+   (i) The MAC of a source Addr (ICMP4/6SendEchoRequest, NS, NA, sendMDNS both branches, SendNBNSQuery) is
+   never used: the Ethernet source comes from the configuration (NIC MAC), so every caller value — NIC MAC,
+   none, foreign, short, long — gives the same frame, and that frame has f_src = host MAC by the wf theorems. *)
+Theorem C07_source_mac_irrelevant : forall c sm sm' si dst id seq tg tgt junk,
+  send_echo4 c (sm, si) dst id seq junk = send_echo4 c (sm', si) dst id seq junk /\
+  send_echo6 c (sm, si) dst id seq junk = send_echo6 c (sm', si) dst id seq junk /\
+  send_ns c (sm, si) dst tg junk = send_ns c (sm', si) dst tg junk /\
+  send_na c (sm, si) dst tgt junk = send_na c (sm', si) dst tgt junk.
+Proof. exact src_mac_irrelevant. Qed.
+Print Assumptions C07_source_mac_irrelevant.
+
+Theorem C07_udp_source_mac_irrelevant : forall c buf sm sm' si dst port seq name junk,
+  send_mdns c buf (sm, si) dst port = send_mdns c buf (sm', si) dst port /\
+  send_nbns_query c (sm, si) dst seq name junk = send_nbns_query c (sm', si) dst seq name junk.
+Proof. exact udp_src_mac_irrelevant. Qed.
+Print Assumptions C07_udp_source_mac_irrelevant.
+
+(* (ii) MACs that are payload (ARP sender / target, NA target link-layer address, DHCP chaddr) are carried as
+   requested when they are 6 bytes (wf theorems above) and refused otherwise: nothing is sent. *)
+Theorem C07_arp_spoofer_refuses_bad_args : forall c op dst sender target junk,
+  arp_args_ok dst sender target = false -> send_arp c op dst sender target junk = Ok [].
+Proof. exact arp_spoofer_refuses. Qed.
+Print Assumptions C07_arp_spoofer_refuses_bad_args.
+
+Theorem C07_na_refuses_bad_target_mac : forall c src dst tm ti junk,
+  Nat.eqb (length tm) 6 = false -> send_na c src dst (tm, ti) junk = Ok [].
+Proof. exact na_refuses. Qed.
+Print Assumptions C07_na_refuses_bad_target_mac.
+
+Theorem C07_discover_refuses_bad_chaddr : forall c ch ci xid opts junk,
+  match ch with Some a => Nat.eqb (length a) 6 | None => false end = false ->
+  send_discover c ch ci xid opts junk = Ok [].
+Proof. exact send_discover_refuses. Qed.
+Print Assumptions C07_discover_refuses_bad_chaddr.
